@@ -1,6 +1,7 @@
 import PprofVerif.Base.Tok
 import PprofVerif.Model.GraphOrder
 import PprofVerif.Gen.Comparators
+import PprofVerif.Model.SymIds
 /- Driver operations for C08: the model's sort under the REGENERATED comparators.
 
    sort.tags  <flat 0|1> <n> (name unit value flat flatDiv cum cumDiv)*
@@ -8,6 +9,8 @@ import PprofVerif.Gen.Comparators
    sort.edges <n> (node node weight weightDiv)*
    node.render (node)                        → x<PrintableName> x<fmt.Sprint(Info)>
    proper                                    → which regenerated comparators are proper
+   sym.ids <start> <n> (key)*                → `ok <n> id…  <m> key…` ids per frame in processing order, then
+                                               the functions appended to prof.Function in order
 
    sort.* reply: `ok <n> <index of the input element at position 0> … ties <t>` where t counts adjacent
    result pairs that the comparator cannot separate (0 ⇒ the order is the unique sorted order). -/
@@ -78,6 +81,11 @@ def ops : List (String × (List String → String)) := [
     match Rd.run rdNode ts with
     | none => "bad-op"
     | some n => Str.toTok (printableName n.info) ++ " " ++ Str.toTok (sprintInfo n.info)),
+  ("sym.ids", fun ts =>
+    match Rd.run (do let s ← Rd.nat; let l ← Rd.list Rd.str; pure (s, l)) ts with
+    | none => "bad-op"
+    | some (s, l) =>
+      "ok " ++ Wr.render (Wr.list Wr.nat ((PV.SymIds.assign s [] l).map (·.2)) ++ Wr.list Wr.str (PV.SymIds.added [] l))),
   ("proper", fun _ =>
     "tags_flat=" ++ b01 (allProperKD tags_Less__flat) ++ " tags_not_flat=" ++ b01 (allProperKD tags_Less__not_flat) ++
     " edges=" ++ b01 (allProperKD edgeList_Less) ++
